@@ -20,6 +20,37 @@ def write_world(w, wd):
             open(os.path.join(wd, n), 'w').write(t)
 
 
+SAMEHREF = {
+    'A.cellml': '<?xml version="1.0" encoding="UTF-8"?>\n<model xmlns="http://www.cellml.org/cellml/2.0#" xmlns:xlink="http://www.w3.org/1999/xlink" name="A"><import xlink:href="a/m.cellml"><units name="u" units_ref="u"/></import></model>\n',
+    'a/m.cellml': '<?xml version="1.0" encoding="UTF-8"?>\n<model xmlns="http://www.cellml.org/cellml/2.0#" xmlns:xlink="http://www.w3.org/1999/xlink" name="M1"><import xlink:href="b/m.cellml"><units name="u" units_ref="u"/></import></model>\n',
+    'a/b/m.cellml': '<?xml version="1.0" encoding="UTF-8"?>\n<model xmlns="http://www.cellml.org/cellml/2.0#" xmlns:xlink="http://www.w3.org/1999/xlink" name="M2"><import xlink:href="a/m.cellml"><units name="u" units_ref="u"/></import></model>\n',
+    'a/b/a/m.cellml': '<?xml version="1.0" encoding="UTF-8"?>\n<model xmlns="http://www.cellml.org/cellml/2.0#" name="M3"><units name="u"><unit units="metre"/></units></model>\n'}
+
+
+def samehref_probe(chk, hx, kf, stats):
+    """the input of known finding C07-same-relative-href, always replayed: a chain of units imports through sub-directories in
+    which the same relative href ("a/m.cellml") names two different files; returns a complaint or None"""
+    wd = tempfile.mkdtemp(prefix='c07s-')
+    try:
+        for n, t in SAMEHREF.items():
+            os.makedirs(os.path.dirname(os.path.join(wd, n)), exist_ok=True)
+            open(os.path.join(wd, n), 'w').write(t)
+        rc, o = run_script(hx, ['importer strict', 'parse %s/A.cellml' % wd, 'resolve %s/' % wd, 'unresolved', 'flatten'])
+        if rc != 0 or len(o) < 5:
+            return 'the library %s on a chain of imports through sub-directories' % ('does not terminate' if rc == 'hang' else 'crashed (rc=%s)' % rc)
+        got, unres, fl = o[2].split()[1] == '1', o[3].split()[1] == '1', o[4].split()[1]
+        stats['samehref_probe'] = [got, unres, fl]
+        if got and not unres and fl != 'null':
+            return None
+        if got and 'C07-same-relative-href' in kf:
+            chk.known_finding(kf['C07-same-relative-href']['what'])
+            return None
+        return ('a chain of units imports A -> a/m.cellml -> a/b/m.cellml -> a/b/a/m.cellml (hrefs "a/m.cellml", "b/m.cellml", "a/m.cellml"; every file exists): '
+                'resolveImports %s, hasUnresolvedImports() %s, flattenModel %s' % (got, unres, fl))
+    finally:
+        shutil.rmtree(wd, ignore_errors=True)
+
+
 def issues(line, rules):
     out = []
     for m in re.findall(r'\[(\d) R(\d+) T(\d+) #([0-9a-f]*)\]', line):
@@ -85,6 +116,9 @@ def run(chk, replay=None):
             rel = list(W.relay_worlds())
             cases += [(w, 'relay', None) for w in rel]
             stats['relays'] = len(rel)
+            rho = list(W.rho_worlds())
+            cases += [(w, 'rho', None) for w in rho]
+            stats['rhos'] = len(rho)
             stats['exhaustive_small'] = len(small)
             n = 250 if chk.tier == 'quick' else 3000
             for _ in range(n):
@@ -184,6 +218,10 @@ def run(chk, replay=None):
                    rule='every world of 2 files x 2 units, 2 files x 2 components, 3 files x 1 units, 3 files x 1 component (each entity a leaf, a reference to another entity of its file, or an import of any entity of any file: self-imports and cycles of every length included; a sample at the quick tier); '
                         'every depth-three world in which an imported component (or units) of a second file uses two units that are leaves or imports from a third file whose units are leaves, imports from a fourth file or refer to each other; random worlds of 2-5 files (units with child references, nested components using units, imports mostly downwards, some back-edges) and one fault each (file missing, truncated at three lengths, foreign XML, referenced entity removed), then repaired and resolved again with the same importer',
                    samples=[lines[0][:300] if lines else '', model[0][:100] if model else ''], traces_validated_against_impl=len(lines) - len(corr), exhaustive=(chk.tier == 'thorough'), outcome_histogram=stats)
+    if not replay:
+        sh = samehref_probe(chk, hx, kf, stats)
+        if sh:
+            chk.violation('import resolution is not decided correctly: ' + sh, {'kind': 'oracle', 'engine': 'files', 'files': SAMEHREF, 'why': sh}, True)
     for what, rec in oracle[:3]:
         chk.violation('import resolution is not decided correctly: ' + what, {'kind': 'oracle', 'engine': 'world', 'world': rec['world'], 'repaired': rec['repaired'], 'wire': W.wire(rec['world'], ORIGIN), 'why': what}, True)
     if not oracle:
